@@ -565,7 +565,7 @@ def part_sched(ctx):
         pat, sc = job
         parts, total, resume = [], None, None
         # (stalls are rare - none in a usual run of the unchanged tree; each costs the watchdog's 60 s)
-        for attempt in range(5 if ctx.quick else 60):
+        for attempt in range(8 if ctx.quick else 60):
             t = ctx.path("traces", f"sched-{pat}-{sc or 'all'}.{attempt}.ndjson")
             args = ["sched", "--pat", pat, "--root", ctx.path("dom", "x")[:-2], "--out", t] + extra
             if sc:
